@@ -259,9 +259,11 @@ def rule_r6(chk, facts, u):
     for f in u.funcs.values():
         if f.file != 'as.c':
             continue
-        for b, i, ln, m in f.nodes():
-            if m[0] != '?':
+        seen = set()
+        for b, i, ln, m in ((b, i, ln, m) for b, i, ln, ex in f.elems() for m in walk(ex) if isinstance(m, (list, tuple)) and m and m[0] == '?'):
+            if (ln, repr(m)) in seen:
                 continue
+            seen.add((ln, repr(m)))
             c = nocast(m[1])
             if not (c[0] == 'b' and c[1] == '==' and const_val(c[3]) == 0 and strip(c[2])[0] == 'm' and strip(c[2])[2].endswith('.ParIter')):
                 continue
